@@ -1519,7 +1519,12 @@ func (d *Data) PutData(ctx *datastore.VersionedCtx, keyStr string, value []byte,
 				if err := json.Unmarshal(value, &newData); err != nil {
 					return err
 				}
-				if newData[field], err = strconv.ParseInt(newData[field].(string), 10, 64); err != nil {
+				strVal, isStr := newData[field].(string)
+				if !isStr {
+					// the schema complains about a nested or otherwise unnamed field: nothing to convert
+					return verr
+				}
+				if newData[field], err = strconv.ParseInt(strVal, 10, 64); err != nil {
 					return err
 				}
 				if value, err = json.Marshal(newData); err != nil {
